@@ -37,7 +37,16 @@ def bfs(init, letters, step, canon, depth, max_states=200000, default_last=False
                 scripted.set_active(run)
                 try:
                     out = step(s2, letter)
-                except Violation as v:
+                except (Violation, Exception) as v:
+                    if not isinstance(v, Violation):
+                        if isinstance(v, (choice.HarnessError, choice.ReplayDivergence)):
+                            raise
+                        import traceback
+                        tb = traceback.extract_tb(v.__traceback__)
+                        if not any('/ixai/' in f.filename for f in tb):
+                            raise
+                        v = Violation(f"{choice.CURRENT_PID[0]}/raised/{type(v).__name__}",
+                                      f"the library raised {type(v).__name__}: {v} after history {hist + (letter,)}", {})
                     if not any(v.key == k for k, _, _ in res.violations):
                         res.violations.append((v.key, v.what, hist + (letter,)))
                     if len(res.violations) >= 3:
